@@ -387,6 +387,10 @@ func (fr *Frame) modCall(call *ast.CallExpr, ms *modSet, info *types.Info, visit
 		}
 		return
 	}
+	switch fullName(callee) {
+	case "reflect.ValueOf", "reflect.Value.NumField", "reflect.Value.Field", "reflect.Value.Uint":
+		return // read-only reflection (see reflectModel; anything else about reflect is havoc at the call)
+	}
 	if isKnownPure(callee) {
 		ms.alloc = true
 		// big.Int methods mutate their receiver
